@@ -112,7 +112,7 @@ def d3(chk, prog):
     fi = prog.fn(f"{VA}._mirrored_baf")
     tb = Table(chk, "baf-forms", "_mirrored_baf", fi.loc(), fi.qn)
     for above in (True, False, None):
-        for maj in ((True, False) if above is None else (None,)):
+        for maj in (True, False):             # the majority side matters only when above_half is None
             W.reset()
             it = Interp(prog)
             v = Vec([Term.sym("lo", 0, Fr(1, 2)), Term.sym("hi", Fr(1, 2), 1)], aligned=True)
@@ -368,6 +368,45 @@ def d6(chk, prog):
     tb.done("TumorBoost frequencies are not stored on their own variants")
 
 
+def d7(chk, prog):
+    chk.clause("D7", "call: a segment's BAF is taken from the variants over the final segments -- after the ci / sem merges, before the purity rescaling and the allelic split")
+    fi = prog.fn("cnvlib.call.do_call")
+    tb = Table(chk, "baf-per-segment", "do_call with variants: the table baf_by_ranges sees and the baf column that results (filters none / ci / sem / ci+sem+cn)", fi.loc(), fi.qn)
+    for filters in (None, ["ci"], ["sem"], ["ci", "sem", "cn"], ["cn"]):
+        W.reset()
+        model = Model()
+        seen = {}
+
+        def stage(tag):
+            def f(it, arr, tag=tag):
+                out = GA(arr.cls, arr.data.copy(), arr.data.n, dict(arr.meta, stages=arr.meta.get("stages", ()) + (tag,)))
+                return out
+            return f
+        for nm in ("ci", "sem", "cn", "ampdel"):
+            model.prims[f"cnvlib.segfilters.{nm}"] = stage(nm)
+        rows = [dict(chromosome="chr1", start=Term.sym(f"s{i}"), end=Term.sym(f"e{i}"), gene="g", log2=OrderVal(f"v{i}", 10 * i - 5, None), probes=5, weight=1) for i in range(3)]
+        g = make_ga("CopyNumArray", rows, {"sample_id": "S"}, index="any", labels=[7, 3, 11])
+        thr = [OrderVal(f"t{i}", 10 * i, None) for i in range(3)]
+        bafs = [Term.sym(f"baf{i}", 0, 1) for i in range(3)]
+
+        def baf_by_ranges(ranges, *a, seen=seen, **k):
+            seen["stages"] = ranges.meta.get("stages", ())
+            seen["cols"] = [c for c in ranges.data.cols if not c.startswith("__")]
+            return Vec(list(bafs), aligned=True)
+        variants = Row({"baf_by_ranges": baf_by_ranges, "sample_id": "S"})
+        it = Interp(prog, model)
+        out = tb.guard(lambda: it.run(fi.qn, [g, variants, "threshold", 2, None, False, False, None, filters, thr]), f"filters={filters}")
+        if out is None:
+            continue
+        early = tuple(f for f in ("ci", "sem") if filters and f in filters)
+        ok = seen.get("stages") == early and "cn" not in seen.get("cols", ["cn"])
+        ok = ok and "baf" in out.data.cols and all(same(a, b) for a, b in zip(out.data.cols["baf"].v, bafs))
+        ok = ok and out.meta.get("stages", ()) == tuple(early) + tuple(f for f in (filters or []) if f not in early)
+        tb.cell(ok, dict(filters=filters, table_seen_by_baf_by_ranges=dict(stages=seen.get("stages"), columns=seen.get("cols")), result_stages=out.meta.get("stages", ()),
+                         baf=[repr(x) for x in out.data.cols["baf"].v] if "baf" in out.data.cols else None))
+    tb.done("the BAF column is not computed over the segments that are finally reported (e.g. before segments are merged by the ci / sem filters)")
+
+
 def run(chk):
     prog = chk.prog
     chk.trust("Python grammar via ast", "pysam: record.start is 0-based (POS - 1), GT is a tuple of allele indices", "pandas aligns column stores / assign() of a Series by index label",
@@ -379,6 +418,7 @@ def run(chk):
     d4(chk, prog)
     d5(chk, prog)
     d6(chk, prog)
+    d7(chk, prog)
 
 
 _V = "skgenome/tabio/vcfio.py"
@@ -397,6 +437,8 @@ MUTANTS = [
     dict(name="alt_freq over alt_count", file=_V, old='    table["alt_freq"] = table["alt_count"] / table["depth"]', new='    table["alt_freq"] = table["depth"] / table["alt_count"]'),
     dict(name="seeded C18a: requested control returns the tumour pair", file=_V, old="        pairs = [(s, n) for s, n in pairs if s == sample_id]", new="        pairs = [(s, n) for s, n in pairs if sample_id in (s, n)]"),
     dict(name="pedigree ignored when ids are given", file=_V, old="    if peds:\n        # Trust the PEDIGREE tag\n        pairs = peds\n    elif normal_id:", new="    if peds and not normal_id:\n        # Trust the PEDIGREE tag\n        pairs = peds\n    elif normal_id:"),
+    dict(name="seeded C18e: explicit above_half=False falls through to the majority rule", file=_Y, old="    if above_half is None:\n        above_half = vals.median() > 0.5\n    if above_half:", new="    if above_half or vals.median() > 0.5:"),
+    dict(name="seeded C18f: BAF per segment computed before the ci / sem merges", edits=[("cnvlib/call.py", "    outarr = cnarr.copy()\n    if filters:", "    outarr = cnarr.copy()\n    if variants:\n        outarr[\"baf\"] = variants.baf_by_ranges(outarr)\n    if filters:"), ("cnvlib/call.py", "                filters.remove(filt)\n\n    if variants:\n        outarr[\"baf\"] = variants.baf_by_ranges(outarr)\n", "                filters.remove(filt)\n")]),
     dict(name="mirrored BAF wrong side", file=_Y, old="    if above_half:\n        return 0.5 + shift\n    return 0.5 - shift", new="    if above_half:\n        return 0.5 - shift\n    return 0.5 + shift"),
     dict(name="tumor boost branches swapped", file=_Y, old="    lt_mask = t_freqs < n_freqs", new="    lt_mask = t_freqs > n_freqs"),
     dict(name="load_het_snps keeps somatic", file="cnvlib/cmdutil.py", old="        skip_somatic=True,\n", new="        skip_somatic=False,\n"),
